@@ -256,12 +256,19 @@ fn values(seed: u64, n: u64, maxdepth: u64) {
     LONG_OK.store(true, SeqCst);
     let mut r = Rng::new(seed);
     println!("{}", json!({"k":"meta","value_size": std::mem::size_of::<Value>(), "pair_size": std::mem::size_of::<(Value, Value)>()}));
-    for i in 0..n {
+    // regression corpus first (F-C17-1): multi-byte code points on the 4096-byte read-chunk boundaries
+    let mut corpus: Vec<Value> = vec![];
+    for (n, cp) in [(4095usize, "\u{e9}"), (4094, "\u{1f600}"), (4093, "\u{20ac}"), (8191, "\u{e9}"), (8190, "\u{20ac}")] {
+        corpus.push(Value::Text("x".repeat(n) + cp + "yz"));
+    }
+    corpus.push(Value::Map(vec![(Value::Text("k".repeat(4095) + "\u{e9}"), Value::Array(vec![Value::Text("x".repeat(4094) + "\u{10ffff}")]))]));
+    let ncorpus = corpus.len() as u64;
+    for i in 0..n + ncorpus {
         let sorted = i % 4 != 0;
-        let v = loop {
+        let v = if i < ncorpus { corpus[i as usize].clone() } else { loop {
             let v = if i % 10 == 9 { let d = 1 + r.below(maxdepth); gen_deep(&mut r, d) } else { let d = 1 + r.below(maxdepth.min(8)); gen_value(&mut r, d, sorted) };
             if enc(&v).map(|b| b.len()).unwrap_or(0) <= 12000 { break v }
-        };
+        } };
         let e = enc(&v);
         let mut o = json!({"k":"val","v":vj(&v)});
         match e {
@@ -317,6 +324,9 @@ fn bytes_mode(seed: u64, n: u64, maxdepth: u64) {
         let mut muts = vec![];
         if i % 3 != 0 { let k = 1 + r.below(2); for _ in 0..k { muts.push(mutate(&mut r, &mut b)) } }
         if i % 50 == 49 { let k = r.below(12) as usize; b = r.bytes(k); muts.push("random") }
+        // announce the input first: if the decode aborts the process (allocation failure), the last
+        // pending line names the input
+        println!("{}", json!({"k":"pending","hex":hex(&b)}));
         // whole-input decode (cbor_decode) with allocation measurement
         let (top, peak, maxreq) = measured(|| dec_opts::<Value>(&b, true));
         // prefix decode: one data item, then the offset
@@ -538,8 +548,10 @@ fn typed_one<T: T17>(name: &str, r: &mut Rng, n: u64) {
         // direct oracles on the implementation alone
         o["det"] = json!(enc(&x).ok().as_ref() == Some(&e));
         let back = dec_opts::<T>(&e, true);
-        o["rt"] = json!(match &back { Ok(y) => if *y == x { "same".to_string() } else { format!("DIFFERENT {:?}", y) }, Err(s) => s.clone() });
-        o["rt_ignore"] = json!(matches!(dec_opts::<T>(&e, false), Ok(y) if y == x));
+        // equality through the printed form: floats inside catch-all values compare bitwise (NaN == NaN)
+        let xs = x.sv();
+        o["rt"] = json!(match &back { Ok(y) => if y.sv() == xs { "same".to_string() } else { format!("DIFFERENT {:?}", y) }, Err(s) => s.clone() });
+        o["rt_ignore"] = json!(matches!(dec_opts::<T>(&e, false), Ok(y) if y.sv() == xs));
         o["reenc"] = json!(back.ok().and_then(|y| enc(&y).ok()).as_ref() == Some(&e));
         println!("{}", o);
         // perturbed encodings decoded under both options
@@ -552,6 +564,7 @@ fn typed_one<T: T17>(name: &str, r: &mut Rng, n: u64) {
             let mut b = Vec::new();
             raw_encode(r, st, &v, &mut b);
             if r.chance(1, 12) { b.push(0) }
+            println!("{}", json!({"k":"pending","ty":name,"hex":hex(&b)}));
             let (rf, peak, _) = measured(|| dec_opts::<T>(&b, true));
             let ri = dec_opts::<T>(&b, false);
             let j = |res: &Result<T, String>| match res { Ok(y) => json!({"x": y.sv()}), Err(s) => json!(s) };
